@@ -184,6 +184,14 @@ carquet_status_t carquet_read_dictionary_page(
             break;
     }
 
+    /* num_values comes from the file: it must be non-negative and the
+     * fixed-width entries it announces must be present in the page */
+    if (header->num_values < 0 ||
+        (value_size > 0 && (size_t)header->num_values > page_size / value_size)) {
+        CARQUET_SET_ERROR(error, CARQUET_ERROR_DECODE, "Invalid dictionary entry count");
+        return CARQUET_ERROR_DECODE;
+    }
+
     reader->dictionary_count = header->num_values;
 
     if (reader->type == CARQUET_PHYSICAL_BYTE_ARRAY) {
